@@ -1,14 +1,15 @@
 /-
   Props/C17.lean — C17: inbound telegrams reach the application in the order they were accepted.
 
-  In the transition system `parked` is the queue of `pushInbound` goroutines blocked on the
-  Inbound channel, in the order they blocked, and a read takes the head.  The theorem below is
-  therefore conditional on the Go runtime waking blocked senders in the order in which they were
-  *spawned* — which it does not guarantee (freshly spawned goroutines may reach the channel in any
-  order).  The real-time part of this check observes the real scheduler; a reordering there is
-  the recorded finding D17.
+  In the tunnel's transition system `parked` is the delivery queue and a read takes its head.
+  That the queue of the code really is first-in first-out on EVERY interleaving of the serve
+  loop, the draining goroutine and the application is the second half of this file
+  (`Knx.IQ`, the model of knx/inbound.go as it is since fix dc79db5; before it every parked
+  telegram had its own goroutine and bursts arrived permuted - found by this check's real-time
+  stream, repaired, recorded as fixed).
 -/
 import Knx.TunnelTrav
+import Knx.InboundQueue
 import Props.C04
 
 namespace Props.C17
@@ -47,5 +48,96 @@ theorem burst_then_reads (cfg : Cfg) (hudp : cfg.tcp = false) (t : Nat) (fs : Li
   have h := (Props.C04.stream cfg hudp t fs s hb e hp).1
   rw [hq, List.nil_append] at h
   exact (reads_in_queue_order cfg t _ _ h).1
+
+/-! ### the queue of knx/inbound.go on every interleaving -/
+
+namespace Queue
+open Knx.IQ
+
+theorem inv_init : Inv {} := ⟨rfl, fun _ => ⟨rfl, rfl⟩⟩
+
+/-- every step of every party preserves the invariant -/
+theorem inv_step (s : Knx.IQ.St) (l : Knx.IQ.Lbl) (h : Inv s) : Inv (Knx.IQ.step s l) := by
+  obtain ⟨ho, hi⟩ := h
+  cases l with
+  | push m ready =>
+    simp only [Knx.IQ.step]
+    cases hd : s.draining with
+    | false =>
+      obtain ⟨hh, hp⟩ := hi hd
+      cases ready with
+      | true =>
+        refine ⟨?_, fun _ => ⟨hh, hp⟩⟩
+        simp only [Bool.not_false, ↓reduceIte, hh, hp, Option.toList_none, List.append_nil] at ho ⊢
+        rw [← ho]
+      | false =>
+        refine ⟨?_, fun hc => by simp at hc⟩
+        simp only [Bool.not_false, ↓reduceIte, Bool.false_eq_true, hh, hp, Option.toList_none, List.append_nil,
+          List.nil_append] at ho ⊢
+        rw [← ho]
+    | true =>
+      refine ⟨?_, fun hc => by simp [hd] at hc⟩
+      simp only [Bool.not_true, Bool.false_eq_true, ↓reduceIte]
+      rw [← ho]; simp only [List.append_assoc]
+  | take =>
+    simp only [Knx.IQ.step]
+    split
+    · rename_i hc
+      simp only [Bool.and_eq_true, Option.isNone_iff_eq_none] at hc
+      cases hp : s.pending with
+      | nil =>
+        simp only
+        refine ⟨?_, fun _ => ⟨hc.2, rfl⟩⟩
+        simpa [hp] using ho
+      | cons m rest =>
+        simp only
+        refine ⟨?_, fun hcc => by simp [hc.1] at hcc⟩
+        simp only [hc.2, hp, Option.toList_none, List.append_nil, Option.toList_some] at ho ⊢
+        rw [← ho]; simp
+    · exact ⟨ho, hi⟩
+  | hand =>
+    simp only [Knx.IQ.step]
+    cases hh : s.holding with
+    | none => simp only; exact ⟨by simpa [hh] using ho, fun hc => by simpa [hh] using hi hc⟩
+    | some m =>
+      refine ⟨?_, fun hc => ?_⟩
+      · simp only [hh, Option.toList_some, Option.toList_none, List.append_nil] at ho ⊢
+        rw [← ho]; try simp
+      · have := (hi hc).1; rw [hh] at this; cases this
+
+/-- **first in, first out, each once, on every interleaving**: whatever the order in which the
+    serve loop pushes, the drainer takes and hands over and the application receives, what the
+    application has received is a prefix of what was pushed - no telegram twice, none skipped,
+    none out of order - and what is still on its way follows in the same order -/
+theorem fifo (ls : List Knx.IQ.Lbl) :
+    ∃ rest, (Knx.IQ.run {} ls).pushed = (Knx.IQ.run {} ls).delivered ++ rest ∧
+      rest = (Knx.IQ.run {} ls).holding.toList ++ (Knx.IQ.run {} ls).pending := by
+  have hinv : ∀ (ls : List Knx.IQ.Lbl) (s : Knx.IQ.St), Inv s → Inv (Knx.IQ.run s ls) := by
+    intro ls
+    induction ls with
+    | nil => intro s h; exact h
+    | cons l ls ih => intro s h; exact ih _ (inv_step s l h)
+  have h := hinv ls {} inv_init
+  exact ⟨_, by rw [← h.order, List.append_assoc], rfl⟩
+
+/-- when the drainer has stopped everything pushed has been received, in order -/
+theorem drained (ls : List Knx.IQ.Lbl) (h : (Knx.IQ.run {} ls).draining = false) :
+    (Knx.IQ.run {} ls).delivered = (Knx.IQ.run {} ls).pushed := by
+  have hinv : ∀ (ls : List Knx.IQ.Lbl) (s : Knx.IQ.St), Inv s → Inv (Knx.IQ.run s ls) := by
+    intro ls
+    induction ls with
+    | nil => intro s h; exact h
+    | cons l ls ih => intro s h; exact ih _ (inv_step s l h)
+  have hi := hinv ls {} inv_init
+  obtain ⟨hh, hp⟩ := hi.idle h
+  have := hi.order
+  rw [hh, hp] at this
+  simpa using this
+
+/-! non-vacuity: a burst while nobody receives, then the reads -/
+example : (Knx.IQ.run {} [.push 0 true, .push 1 false, .push 2 false, .take, .push 3 false, .hand, .take, .hand,
+    .take, .hand, .take, .hand, .take]).delivered = [0, 1, 2, 3] := by decide
+
+end Queue
 
 end Props.C17
